@@ -36,5 +36,6 @@ Definition dispatch (n : Z) (s : sexp) : sexp :=
   | 28 => generated_entry s
   | 29 => oracle_entry s
   | 30 => regex_entry s
+  | 31 => renderable_entry s
   | _ => L [A (-1)]
   end.
